@@ -89,6 +89,14 @@ template <int S, int D> static void check_length(Ctx &c, const std::string &unit
   auto fail = [&](const std::string &m) { c.st.violate(unit, fmt("%s D=%d: %s | %s", order_name(S), D, m.c_str(), describe(p).c_str()), {{"what", "arc-length"}}); };
   const double t0 = tr.getStartTime(), t1 = tr.getEndTime();
   struct R { double a, b; }; std::vector<R> ranges = {{t0, t1}, {t0 + 0.3 * (t1 - t0), t0 + 0.85 * (t1 - t0)}, {t0 + 0.5, t0 + 0.5}};
+  // steps at and below one microsecond on short windows ("every positive step"): the 1e-6 of the end rule is a tolerance on the LAST sample,
+  // not a lower bound on the step (seeded change C20-m7: intervals narrower than 1e-6 skipped in the length sum)
+  for (int wi = 0; wi < 2; ++wi) { const double a0 = wi == 0 ? t0 : t0 + 0.4375 * (t1 - t0), len = std::min(0.002, 0.25 * (t1 - t0));
+    for (double dtt : {5e-7, 1e-6, 9.5367431640625e-07, 2e-6}) { std::vector<double> sq = tr.generateTimeSequence(a0, a0 + len, dtt); ++c.st.comparisons;
+      if (sq.size() < 2 || (double)sq.size() < 0.5 * len / dtt) { fail(fmt("generateTimeSequence(%.17g, %.17g, %g) has %zu samples", a0, a0 + len, dtt, sq.size())); return; }
+      LD rie = 0, sabs = 0; for (size_t i = 0; i + 1 < sq.size(); ++i) { LD term = (LD)tr.evaluate(sq[i], 1).norm() * ((LD)sq[i + 1] - (LD)sq[i]); rie += term; sabs += fabsl(term); }
+      const double rep = tr.getTrajectoryLength(a0, a0 + len, dtt);
+      if (fabsl((LD)rep - rie) > 1e-11L * std::max(sabs, (LD)1e-300)) { fail(fmt("getTrajectoryLength(%.17g,%.17g,%g) = %.17g is not the left Riemann sum of speed %.17Lg over its %zu samples", a0, a0 + len, dtt, rep, rie, sq.size())); return; } } }
   for (const R &r : ranges) for (double dt : {0.5, 0.1, 0.01, 0.003}) {
     std::vector<double> seq = tr.generateTimeSequence(r.a, r.b, dt);
     // batch == pointwise
